@@ -239,3 +239,10 @@ NEUTRALS = [
     M("flag test inverted with swapped branches", _B, "samples = self.mutate(samples, beta)\n                if store_sample_history:\n                    self.history.sample_history.append(samples)",
       "samples = self.mutate(samples, beta)\n                if not store_sample_history:\n                    pass\n                else:\n                    self.history.sample_history.append(samples)"),
 ]
+
+# functions the property is anchored in (auto-mutant sweep of the thorough tier)
+ANCHORS = [
+    'aspire.samplers.smc.base:SMCSampler.sample',
+    'aspire.samplers.smc.minipcn:MiniPCNSMC.mutate',
+    'aspire.samplers.smc.emcee:EmceeSMC.mutate',
+]
